@@ -38,14 +38,21 @@ type knownFinding struct {
 
 func loadKnown(prop string) map[string]knownFinding {
 	out := map[string]knownFinding{}
-	b, err := os.ReadFile(filepath.Join(VerifDir(), "known_findings.json"))
-	if err != nil {
-		return out
-	}
 	var all []knownFinding
-	if err := json.Unmarshal(b, &all); err != nil {
-		fmt.Fprintln(os.Stderr, "known_findings.json unreadable:", err)
-		return out
+	files := []string{filepath.Join(VerifDir(), "known_findings.json")}
+	more, _ := filepath.Glob(filepath.Join(VerifDir(), "known_findings.d", "*.json"))
+	files = append(files, more...)
+	for _, f := range files {
+		b, err := os.ReadFile(f)
+		if err != nil {
+			continue
+		}
+		var part []knownFinding
+		if err := json.Unmarshal(b, &part); err != nil {
+			fmt.Fprintln(os.Stderr, f, "unreadable:", err)
+			continue
+		}
+		all = append(all, part...)
 	}
 	for _, k := range all {
 		if k.Property == prop && k.Status == "known" {
